@@ -13,6 +13,8 @@ mod json;
 mod mon;
 mod props;
 mod rng;
+mod text_gen;
+mod tok_ref;
 
 use engine::{Config, Tier};
 
